@@ -24,7 +24,7 @@ def gen(rng):
         return {"kind": kind, "est": est, "p": p}
     if kind == "cms":
         return {"kind": kind, "conf": rng.choice([0.5, 0.75, 0.9, 0.95, 0.99, 0.999]) if rng.random() < 0.5 else rng.uniform(1e-4, 0.9999), "err": rng.choice([0.5, 0.25, 0.1, 0.01, 0.001]) if rng.random() < 0.5 else rng.uniform(1e-4, 0.99)}
-    return {"kind": kind, "er": rng.choice([0.5, 0.1, 0.01, 0.001, 1e-6]) if rng.random() < 0.5 else 10 ** rng.uniform(-8.5, -0.05), "b": rng.choice([1, 2, 3, 4, 8])}
+    return {"kind": kind, "er": rng.choice([0.5, 0.1, 0.01, 0.001, 1e-6]) if rng.random() < 0.5 else 10 ** rng.uniform(-8.5, -0.05), "b": rng.choice([1, 2, 3, 4, 5, 6, 7, 8, 12])}
 
 
 def check(case):
@@ -77,6 +77,11 @@ def check(case):
         d = P.CuckooFilter.init_error_rate(er, capacity=2, bucket_size=bsz)
         if d.fingerprint_size_bits != f:
             return "cuckoo fingerprint size not stable"
+        for cls in (P.CuckooFilter, P.CountingCuckooFilter):
+            o = cls.init_error_rate(er, capacity=2, bucket_size=bsz)
+            l = cls.frombytes(bytes(o), error_rate=er)
+            if l.fingerprint_size_bits != o.fingerprint_size_bits or l.bucket_size != bsz:
+                return f"{cls.__name__} reloaded from bytes with the same error rate has {l.fingerprint_size_bits} fingerprint bits, the original {o.fingerprint_size_bits} (bucket_size {bsz})"
     return None
 
 
